@@ -107,6 +107,12 @@ def execute(
     else:
         raise RuntimeError("Unknown operation type %s." % operation.operation)
 
+    # Evaluating `@skip` / `@include` on the root selection can fail
+    # (CoercionError): do it before the execution stage is reported as started.
+    root_fields = executor.collect_fields(
+        root_type, operation.selection_set.selections
+    )
+
     instrumentation.on_execution_start()
 
     def _on_finish(data):
@@ -120,9 +126,7 @@ def execute(
                     root_type,
                     initial_value,
                     [],
-                    executor.collect_fields(
-                        root_type, operation.selection_set.selections
-                    ),
+                    root_fields,
                 )
             ),
             _on_finish,
